@@ -150,6 +150,11 @@ Proof. exact ConfProofs.parse_error_cases. Qed.
 Theorem C17_old_loop_refuted : exists bs t, parse_old bs = Ok t /\ no_clobber (doc_events bs) /\ ~ represents t (doc_events bs).
 Proof. exact ConfProofs.parse_old_refuted. Qed.
 
+(* the repairs are conservative: whatever the repaired parser accepts, the old loop accepted with the same tree
+   (they only turn silent drops into errors) *)
+Theorem C17_repair_conservative : forall bs t, parse bs = Ok t -> parse_old bs = Ok t.
+Proof. exact ConfProofs.repair_conservative. Qed.
+
 (* ---- no panic -------------------------------------------------------------------------------- *)
 Theorem C17_no_panic_parse : forall bs n, parse bs <> Panic n.
 Proof. exact ConfProofs.parse_no_panic. Qed.
@@ -185,5 +190,6 @@ Print Assumptions C17_whole_or_error.
 Print Assumptions C17_whole_represented.
 Print Assumptions C17_outcomes.
 Print Assumptions C17_old_loop_refuted.
+Print Assumptions C17_repair_conservative.
 Print Assumptions C17_no_panic_parse.
 Print Assumptions C17_no_panic_getters.
